@@ -260,6 +260,10 @@ def calcPipe (s : Segments) (highRxt highData rtt now : Nat) : Option (Segments 
   let (revSegs, a) := pipeLoop s highRxt thr now indexed.reverse {}
   some ({ s with segs := revSegs.reverse ++ s.segs.drop take }, { pipe := a.pipe, recalcTimer := a.recalcTimer })
 
+def mkView (s : Segments) (offset : Nat) (p : Segment × Nat) : SegView :=
+  { idx := offset + p.2, seqNr := wadd s.sndUna ((offset + p.2) % 65536),
+    payloadOffset := p.1.offsetAbs - s.removedOffset, seg := p.1 }
+
 /-- `iter_mut_for_sending(start)`: views of the undelivered segments from `start`; `none` = the
 `checked_sub(removed_abs).unwrap()` panic. -/
 def iterForSending (s : Segments) (start : Option Nat) : Option (List SegView) :=
@@ -268,9 +272,7 @@ def iterForSending (s : Segments) (start : Option Nat) : Option (List SegView) :
     | none => 0
   let offset := if offset ≥ s.segs.length then s.segs.length else offset
   let views := ((s.segs.drop offset).zipIdx).map (fun p =>
-    if p.1.offsetAbs < s.removedOffset then none else
-    some ({ idx := offset + p.2, seqNr := wadd s.sndUna ((offset + p.2) % 65536),
-            payloadOffset := p.1.offsetAbs - s.removedOffset, seg := p.1 } : SegView))
+    if p.1.offsetAbs < s.removedOffset then none else some (s.mkView offset p))
   if views.any Option.isNone then none else
   some ((views.filterMap id).filter (fun v => !v.seg.isDelivered))
 
